@@ -4,6 +4,7 @@ import (
 	"bytes"
 	"context"
 	"crypto/sha256"
+	"errors"
 	"fmt"
 	"io/fs"
 	"os"
@@ -34,7 +35,11 @@ func (c CarRun) Run() (r RunResult, hung bool) {
 	defer cancel()
 	cmd := exec.CommandContext(ctx, CarBin, c.Args...)
 	cmd.Dir = c.Dir
-	cmd.WaitDelay = 5 * time.Second
+	// WaitDelay only bounds the wait for the output pipes after the process is gone (or was killed at
+	// the deadline). It is not an oracle: on a heavily loaded machine the copying goroutines have been
+	// seen to need more than 5 s after a normal exit ("exec: WaitDelay expired before I/O complete"),
+	// which turned a successful run into a spurious failure. Two minutes is far above that.
+	cmd.WaitDelay = 2 * time.Minute
 	switch {
 	case c.StdinFile != "":
 		f, err := os.Open(c.StdinFile)
@@ -57,6 +62,9 @@ func (c CarRun) Run() (r RunResult, hung bool) {
 	if err != nil {
 		if ee, ok := err.(*exec.ExitError); ok {
 			r.Exit = ee.ExitCode()
+		} else if errors.Is(err, exec.ErrWaitDelay) && cmd.ProcessState != nil && cmd.ProcessState.Exited() {
+			// the process itself exited; only the pipes were slow: its own exit code stands
+			r.Exit = cmd.ProcessState.ExitCode()
 		} else {
 			r.Exit = -1
 			r.Stderr = append(r.Stderr, []byte(err.Error())...)
